@@ -101,21 +101,23 @@ CHECKS = {
             "evaluate() configured like the solve command for solvers x generators x repetition counts x p (quick 1,2,3,4,16; thorough 1..16) x assignments: every column "
             "replayed against its repetition's hidden game (reported through after_reset), matrices identical for all schedules, continuous generators give pairwise distinct "
             "hidden games, incl. generators that draw games done right after reset; the pool model implements the whole Pool API (for unordered entry points the schedule "
-            "owns the completion order); real-Pool conformance runs. The random solver's per-chunk restart is a listed known finding recognised only by an exact behavioural model.",
+            "owns the completion order); real-Pool conformance runs; one list of 260 (520, 1030) repetitions; three configurations in separate interpreter "
+            "invocations under PYTHONHASHSEED 0 / 1 / 4242. The random solver's per-chunk restart is a listed known finding recognised only by an exact behavioural model.",
             "forkserver not modelled; the known-finding matcher accepts only action matrices equal to the restart model's prediction.",
             "DESIGN.md §6 C12, §7 F5b"),
     "C13": ("E1 env walk + E2 deterministic pool",
             "exhaustive visit of every environment knowledge state with every registered solver; expected-greedy under every schedule of a deterministic pool",
             "Every state of the knowledge lattice (n=3 all 8, n=4 all 1024 / 64) on one long-lived env: each solver's action is valid, obeys its rule against an independent "
             "reward table, ties to the lowest index where exactly comparable, every attribute of the env unchanged, the same solver objects over several episodes with "
-            "different hidden games; get_greedy_rewards (plain and randomised, all four gap functions) on scripted game sets x step limits x "
+            "different hidden games, incl. n = 4 games outside the class the computer assumes; get_greedy_rewards (plain and randomised, all four gap functions) on scripted game sets x step limits x "
             "worker counts x assignments: greedy rule per step, no repeats, monotone curve, >= exhaustive optimum and == for 0 and 1 reveals, schedule independent.",
             "Tie-breaking inside float tolerance (exploitability / l2) is unconstrained.",
             "DESIGN.md §6 C13"),
     "C14": ("E1 regret explorer",
             "explicit-state BFS over iteration histories (state = both tables + counter) with invariants at every node of the game tree",
             "Construction for n=3 limits 1..5, n=4 limits 1..12, n=5 limits 1..3, plain/plus: ranking bijection, order, inverse; BFS over terminal-value vectors (n=3 all of "
-            "{0,1,2}^terminals to depth 2/3; n=4,5 structured alphabets to depth 1-2): distributions, supports, orthogonality, plus-twin relation, save/load continuation.",
+            "{0,1,2}^terminals to depth 2/3; n=4,5 structured alphabets to depth 1-2; iterations that list only part of the terminal sets): distributions, supports, "
+            "orthogonality, plus-twin relation, partial list == full list with zeros, save/load continuation, second load of the same checkpoint.",
             "float32 tolerances; states restored by assigning table copies, re-derived on fresh objects by history replay (all states at n=3).",
             "DESIGN.md §6 C14"),
     "C15": ("input enumeration",
@@ -129,20 +131,22 @@ CHECKS = {
     "C16": ("E1 + E4 choice controller",
             "explicit-state BFS where every (size, tie-break candidate) pair is a transition: numpy.random.choice is owned by the harness",
             "ICG_Gym_Linear explored with all tie-breaks enumerated over several episodes on one long-lived env (differing hidden games, incl. non-superadditive ones): "
-            "n=3,4 all states until done, n=5 depth 3(4), n=6 depth 2: mask per size, candidates offered == unknown "
+            "n=3,4 all states until done, n=5 depth 3(4), n=6 depth 2, environments with a whole size known from the start, sizes of wildly different magnitude: mask per size, candidates offered == unknown "
             "coalitions of that size, exactly one new coalition of that size revealed and reported, reward/done/observation aggregation against the wrapped env.",
             "If a step stops consulting numpy.random.choice the run is marked non-exhaustive (never a violation).",
             "DESIGN.md §6 C16"),
     "C17": ("E1 object explorer",
             "explicit-state BFS over public value operations of the real game object with a dict reference model",
             "n=1,2 to closure, n=3 depth 3 (thorough 4), n=5 depth 2, plus roots produced by a real bound computer: after every operation every public getter is compared "
-            "with the model (selections also passed as one-shot iterables); copy / negation independence probed in every state.",
+            "with the model (selections also passed as one-shot iterables, unsorted lists, arguments aliasing the object's own table, infinite bound vectors, "
+            "the empty coalition as an ordinary argument); copy / negation independence and read-only observers probed in every state; second pass under python -O.",
             "Bounds of unknown coalitions left unspecified by the statement are not compared.",
             "DESIGN.md §6 C17"),
     "C18": ("input enumeration",
             "complete enumeration of coalitions (n<=10), ordered pairs (n<=6) and of two game lattices for the predicates, against Python frozenset / textbook definitions",
             "Every coalition for n=1..10 (3^n sub/super elements), every ordered pair for n<=6, object API vs id-array API vs frozenset; predicates on all 16384 + 2x32768 + "
-            "2187 lattice games plus relative-1e-6 perturbations of tight constraints.",
+            "2187 lattice games plus relative-1e-6 perturbations of tight constraints, the n=3 lattice in tiny / huge units, eight (rtol, atol) combinations "
+            "against the documented rule in exact rationals; augmented assignment on aliased operands.",
             "Inside of the documented 1e-9 band unconstrained.",
             "DESIGN.md §6 C18"),
     "C19": ("E1 file explorer",
@@ -154,7 +158,7 @@ CHECKS = {
             "DESIGN.md §6 C19"),
     "C20": ("E3 CrashFS",
             "exhaustive fault enumeration on the real save path: kill before every OS-level operation, every torn-write offset, OSError at every operation, interrupt at traced lines",
-            "File histories with 0/1/3 earlier runs x result sizes 200 B / 3 KiB / 40 KiB x every kill point (cross-checked against a forked child that really dies), every "
+            "File histories with 0/1/3/12(33) earlier runs x result sizes 200 B / 3 KiB / 40 KiB x every kill point (cross-checked against a forked child that really dies), every "
             "torn-write byte offset (<= 2 KiB payloads; boundary + stride above), ENOSPC/EIO at every operation, fault sequences (ENOSPC then death at any later operation), "
             "KeyboardInterrupt at traced lines; afterwards data.json is the "
             "old or the complete new file, parses, keeps earlier runs, and a recovery save works.",
